@@ -246,7 +246,8 @@ def check_point(eng, x, v, wseed, mode, h):
     info['kink_margin'] = float(np.min(np.abs(a0))) if a0.size else float('inf')
     info['kink_sides'] = (int(np.sum(a0 > 0)), int(np.sum(a0 < 0)))
   if mode != 'fd':
-    if getattr(eng, 'kink_fd', False):
+    on_kink = mode == 'kink' and eng.kink is not None and a0.size and info['kink_hits'] == a0.size
+    if getattr(eng, 'kink_fd', False) and on_kink:   # every kink argument exactly zero (state at rest)
       det = _kink_fd_consistency(eng, x, v, jl, yl, yn, h)
       if det is not None:
         det['mode'] = mode
@@ -283,7 +284,13 @@ def check_point(eng, x, v, wseed, mode, h):
   floor = [100 * eps * (ymag[j] + 1e-6 * max(ymag)) / h for j in range(len(yl))]
   for name, jt, rich, fd1, fd2 in results:
     for j in range(len(yl)):
-      err = core.relerr(jt[j], rich[j], scale=scale[j] + floor[j] / RTOL_FD)
+      # a difference quotient cannot certify more than its own resolution: where D(h) and D(h/2) still differ
+      # (truncation not yet in the h^2 regime, or rounding noise of a long multi-step primal) the entry-wise
+      # tolerance is widened by twice that difference
+      resid = np.abs(np.asarray(jt[j]) - np.asarray(rich[j])) - 2.0 * np.abs(np.asarray(fd1[j]) - np.asarray(fd2[j]))
+      err = float(np.max(np.maximum(resid, 0.0))) / (scale[j] + floor[j] / RTOL_FD) if np.size(resid) else 0.0
+      if not np.all(np.isfinite(resid)):
+        err = float('inf')
       if not err <= RTOL_FD:
         idx = core.argmax_index(jt[j], rich[j])
         return {'what': 'jvp differs from the central finite difference', 'tangent_field': name,
